@@ -541,6 +541,13 @@ func Generate(seed uint64, profile string, faults bool) *Scenario {
 		o.delayPermille = 200
 		o.delayChoice = []int{50, 300, 2000}
 		shutdowns = 1 + g.n(2)
+		if g.p(300) {
+			// a reload that raises a concurrency limit leaves a free slot next to a non-empty wait list until the next
+			// job event: a shutdown that meets that state must still start none of the waiting jobs
+			mix["reload"] = 2
+			o.concChoices = []int{1, 1, 2, 3}
+			o.qlChoices = []int{-1, -1, 3, 5}
+		}
 	case "C12":
 		cfg.Store = "mem"
 		cfg.Logs = true
